@@ -222,21 +222,34 @@ def from_py(c):
 
 
 class Bag:
-    """A symbolic finite multiset of values: one element ``elem`` for every assignment of
-    ``binders`` satisfying ``cond``.  Distinct assignments are distinct occurrences."""
-    __slots__ = ("binders", "cond", "elem", "tag")
+    """A symbolic finite multiset of values: one element ``elem`` for every assignment of ``binders``
+    satisfying ``cond`` (the branch decisions).  ``aux`` are auxiliary constants (results of callee
+    contracts, fresh sets) that are *determined or constrained* by ``defs`` (callee postconditions and
+    definitional facts): they are not part of the identity of an occurrence, and they are universally
+    quantified (a callee's nondeterminism is demonic) wherever the bag is reasoned about."""
+    __slots__ = ("binders", "cond", "elem", "tag", "defs", "aux")
 
-    def __init__(self, binders, cond, elem, tag=""):
+    def __init__(self, binders, cond, elem, tag="", defs=None, aux=None):
         self.binders = list(binders)
         self.cond = cond
         self.elem = elem
         self.tag = tag
+        self.defs = defs if defs is not None else z3.BoolVal(True)
+        self.aux = list(aux or [])
 
     def instantiate(self, prefix="b"):
-        """Return (fresh consts, cond', elem') with binders renamed apart."""
+        """Return (fresh binder consts, cond', elem', defs') with binders and aux renamed apart."""
         news = [fresh(prefix, b.sort()) for b in self.binders]
-        sub = list(zip(self.binders, news))
-        return news, z3.substitute(self.cond, *sub) if sub else self.cond, subst_sv(self.elem, sub)
+        newaux = [fresh(prefix + "x", b.sort()) for b in self.aux]
+        sub = list(zip(self.binders, news)) + list(zip(self.aux, newaux))
+        if not sub:
+            return news, self.cond, self.elem, self.defs
+        return news, z3.substitute(self.cond, *sub), subst_sv(self.elem, sub), z3.substitute(self.defs, *sub)
+
+    def with_cond(self, extra_cond=None, extra_defs=None, binders_prefix=()):
+        return Bag(list(binders_prefix) + self.binders,
+                   z3.And(extra_cond, self.cond) if extra_cond is not None else self.cond, self.elem, self.tag,
+                   z3.And(extra_defs, self.defs) if extra_defs is not None else self.defs, self.aux)
 
 
 def subst_sv(sv, sub):
@@ -249,7 +262,8 @@ def subst_sv(sv, sub):
     if sv.k == "range":
         return SV("range", x=tuple(subst_sv(i, sub) for i in sv.x))
     if sv.k == "gen":
-        return SV("gen", x=[Bag(b.binders, z3.substitute(b.cond, *sub), subst_sv(b.elem, sub), b.tag)
+        return SV("gen", x=[Bag(b.binders, z3.substitute(b.cond, *sub), subst_sv(b.elem, sub), b.tag,
+                                z3.substitute(b.defs, *sub), b.aux)
                             for b in sv.x])
     if sv.k in ("list", "bytes"):
         return SV(sv.k, z3.substitute(sv.t, *sub), x=z3.substitute(sv.x, *sub), cls=sv.cls)
